@@ -441,6 +441,84 @@ pub fn run(a: &Args) -> Batch {
                 "outcome": format!("{:?}", out2).chars().take(160).collect::<String>(), "classes": if out2.class() == 2 { vec!["crash_on_broken_reference"] } else { vec![] }})));
         }
     }
+    // names shared across kinds: a window construction whose GLASS-TYPE names something that only exists as a
+    // frame (must be rejected), and a glazing and a frame that carry the same name (a valid project: the
+    // converted model must still be closed, every construction pointing at a glass and at a frame)
+    for p in &projects {
+        let parsed = match crate::guarded(std::panic::AssertUnwindSafe(|| p.src.parse())) {
+            Ok(Ok(d)) => d,
+            _ => continue,
+        };
+        let bdl = p.src.bdl();
+        let b = match extract(&parsed.bdldata, &bdl) {
+            Some(b) => b,
+            None => continue,
+        };
+        let used: Vec<&(String, String, String)> = b.gaps.iter().filter(|g| b.wins.iter().any(|w| w.2 == g.0)).collect();
+        for g in used.iter().take(if a.thorough { 6 } else { 2 }) {
+            let (gap, glass, frame) = (&g.0, &g.1, &g.2);
+            if glass == frame || CATALOG.with(|c| c.iter().any(|x| x == glass || x == frame)) {
+                continue;
+            }
+            // (1) the glazing reference now names the frame
+            let edit_line = |text: &str, block: &str, key: &str, newval: &str| -> Option<String> {
+                let lines: Vec<&str> = text.split_inclusive('\n').collect();
+                let start = lines.iter().position(|l| { let t = l.trim(); t.starts_with(&format!("\"{}\"", block)) && t.replace(' ', "").ends_with("=GAP") })?;
+                let end = (start..lines.len()).find(|&i| lines[i].trim() == "..")?;
+                let mut out = String::new();
+                let mut done = false;
+                for (i, l) in lines.iter().enumerate() {
+                    let t = l.trim_start();
+                    if i > start && i < end && t.starts_with(key) && t[key.len()..].trim_start().starts_with('=') {
+                        out.push_str(&format!("     {} = \"{}\"\n", key, newval));
+                        done = true;
+                    } else {
+                        out.push_str(l);
+                    }
+                }
+                if done { Some(out) } else { None }
+            };
+            let mut variants: Vec<(String, String, bool)> = vec![];
+            if let Some(mut t) = edit_line(&bdl, gap, "GLASS-TYPE", frame) {
+                // HULC repeats blocks: edit every copy
+                while let Some(t2) = edit_line(&t, gap, "GLASS-TYPE", frame).filter(|x| *x != t) { t = t2; }
+                variants.push((t, format!("GLASS-TYPE of \"{}\" names the frame \"{}\"", gap, frame), false));
+            }
+            // (2) the frame is renamed to the glazing's name everywhere (definition and reference)
+            let t = bdl.replace(&format!("\"{}\" = NAME-FRAME", frame), &format!("\"{}\" = NAME-FRAME", glass));
+            if t != bdl {
+                let mut t2 = t.clone();
+                let mut cur = t;
+                loop {
+                    match edit_line(&cur, gap, "NAME-FRAME", glass) { Some(x) if x != cur => { cur = x; t2 = cur.clone(); } _ => break }
+                }
+                // every gap using that frame must follow: simplest is to rewrite every NAME-FRAME reference
+                let t3: String = t2.split_inclusive('\n').map(|l| { let tt = l.trim_start(); if tt.starts_with("NAME-FRAME") && tt.contains(&format!("\"{}\"", frame)) { l.replace(&format!("\"{}\"", frame), &format!("\"{}\"", glass)) } else { l.to_string() } }).collect();
+                variants.push((t3, format!("frame \"{}\" renamed to the glazing's name \"{}\"", frame, glass), true));
+            }
+            for (text, what, valid) in variants {
+                let src2 = p.src.with_bdl(&text);
+                let d2 = match crate::guarded(std::panic::AssertUnwindSafe(|| src2.parse())) {
+                    Ok(Ok(d)) => d,
+                    _ => continue,
+                };
+                let b2 = match extract(&d2.bdldata, &text) {
+                    Some(b) => b,
+                    None => continue,
+                };
+                let out2 = hproj::convert(&src2);
+                *stats.entry(format!("mutants_NameCollision_{}", ["converted", "rejected", "crashed"][out2.class()])).or_default() += 1;
+                if valid {
+                    if let Outcome::Ok(m) = &out2 {
+                        coq::reset_ids();
+                        closure_cases.push((format!("{} [{}]", p.name, what), coq::model(m)));
+                    }
+                }
+                cases.push(case_of(&b2, &out2, true, false, json!({"project": p.name, "mutation": what,
+                    "outcome": format!("{:?}", out2).chars().take(160).collect::<String>(), "classes": if out2.class() == 2 { vec!["crash_on_broken_reference"] } else { vec![] }})));
+            }
+        }
+    }
     stats.insert("closure_models".into(), closure_cases.len());
     // closure of the converted models goes through the C14 saneness predicate `closed` of the Coq model
     for (name, mt) in closure_cases {
@@ -452,7 +530,7 @@ pub fn run(a: &Args) -> Batch {
         agree: "agree_C02x".into(),
         cases: cases.into_iter().map(|mut c| { if c.term.starts_with("(mkC02 ") { c.term = format!("(C02Doc {})", c.term); } else { c.term = c.term.replacen("(mkC02m ", "(C02Model ", 1); } c }).collect(),
         impl_findings: findings,
-        rule: "the 12 shipped .ctehexml projects (with the LIDER catalog) and the 56 legacy .cte files; for each, the name-level document extracted from the implementation's own parse, the conversion outcome, and every project obtained by renaming (header only) or removing one definition that another block refers to (materials, layers, constructions, gaps, glazings, frames, polygons, space / system conditions, yearly / weekly / daily schedules; spaces by rename), plus the window -> wall link (the first wall of the file removed, walls with windows removed or turned into UNDERGROUND-FLOOR blocks, with the document extracted again from the implementation's parse), sampled per project (5 per project in the quick tier, 60 in the thorough tier); converted models are checked for referential closure by the Coq predicate `closed`; non-trivial = a mutated project; distinct by content hash".into(),
+        rule: "the 12 shipped .ctehexml projects (with the LIDER catalog) and the 56 legacy .cte files; for each, the name-level document extracted from the implementation's own parse, the conversion outcome, and every project obtained by renaming (header only) or removing one definition that another block refers to (materials, layers, constructions, gaps, glazings, frames, polygons, space / system conditions, yearly / weekly / daily schedules; spaces by rename), plus names shared across kinds (a GLASS-TYPE reference naming a frame; a frame renamed to its glazing's name, whose converted model must stay closed) and the window -> wall link (the first wall of the file removed, walls with windows removed or turned into UNDERGROUND-FLOOR blocks, with the document extracted again from the implementation's parse), sampled per project (5 per project in the quick tier, 60 in the thorough tier); converted models are checked for referential closure by the Coq predicate `closed`; non-trivial = a mutated project; distinct by content hash".into(),
         stats: json!(stats),
     }
 }
